@@ -70,7 +70,7 @@ class _Conn:
         b = pickle.dumps(obj, protocol=pickle.HIGHEST_PROTOCOL)
         try:
             self.sock.sendall(struct.pack("<Q", len(b)) + b)
-        except (BrokenPipeError, ConnectionResetError):
+        except OSError:           # peer gone / socket already closed: the rank's exit is reported by the process table
             pass
 
 
